@@ -212,7 +212,38 @@ def coq_call_P(toks):
     return "p_program [%s] %s [%s]" % ("; ".join(tys), " ".join(vecs), "; ".join(ops))
 
 
-CALLS = {"M": coq_call_M, "S": coq_call_S, "V": coq_call_V, "K": coq_call_K, "A": coq_call_A, "X": coq_call_X, "R": coq_call_R, "P": coq_call_P}
+def coq_call_T(toks):
+    """toks: prog <mval> acc nder { nlevels { r slice*r } } nthreads { nact { kind der form nidx idx... x } } seed"""
+    sv, p = coq_mval(toks, 1)
+    p += 1                      # accessor kind: the model is accessor-independent (the cell is what is compared)
+    nder = toks[p]; p += 1
+    ders = []
+    for _ in range(nder):
+        nl = toks[p]; p += 1
+        levels = []
+        for _ in range(nl):
+            r = toks[p]; p += 1
+            sls = []
+            for _ in range(r):
+                sl, p = coq_slice(toks, p)
+                sls.append(sl)
+            levels.append("[" + "; ".join(sls) + "]")
+        ders.append("[" + "; ".join(levels) + "]")
+    nt = toks[p]; p += 1
+    progs = []
+    for _ in range(nt):
+        na = toks[p]; p += 1
+        acts = []
+        for _ in range(na):
+            kind, der, form, nidx = toks[p:p + 4]; p += 4
+            idx = toks[p:p + nidx]; p += nidx
+            x = toks[p]; p += 1
+            acts.append("TA %d%%nat %d%%nat %d%%nat %s %s" % (kind, der, form, zlist(idx), zlit(x)))
+        progs.append("[" + "; ".join(acts) + "]")
+    return "t_threads %s [%s] [%s]" % (sv, "; ".join(ders), "; ".join(progs))
+
+
+CALLS = {"M": coq_call_M, "S": coq_call_S, "V": coq_call_V, "K": coq_call_K, "A": coq_call_A, "X": coq_call_X, "R": coq_call_R, "P": coq_call_P, "T": coq_call_T}
 # family A: the driver prints the five model values under eleven labels (one per access form); these are the distinct ones, in model order
 A_LABELS = ["dir", "par", "psp", "heap", "rb"]
 
@@ -247,7 +278,7 @@ def cross_check(rep, prop, family, samples, workdir):
         return 0
     os.makedirs(workdir, exist_ok=True)
     call = CALLS[family]
-    lines = ["From Coq Require Import ZArith List.", "From MdspanVerif Require Import MachInt ListAux Layouts Extents Convert View MdArray Submdspan DriverModel.",
+    lines = ["From Coq Require Import ZArith List.", "From MdspanVerif Require Import MachInt ListAux Layouts Extents Convert View MdArray Submdspan Concurrency DriverModel.",
              "Import ListNotations.", "Local Open Scope Z_scope.", "Set Printing Width 1000000.", "Set Printing Depth 1000000."]
     for k, (toks, ml) in enumerate(samples):
         lines.append("Eval vm_compute in (%d%%nat, %s)." % (k, call([int(x) for x in toks])))
@@ -290,7 +321,7 @@ def cross_check(rep, prop, family, samples, workdir):
 def sample_check(rep, prop, family, records, tier, seed, work, replay, n=40):
     """thorough tier only: a seeded sample of a family's cases is evaluated inside Coq as well"""
     import random, common
-    if tier != "thorough" or replay or common.is_scaled() or common.CFG_OVERRIDE:
+    if (tier != "thorough" and not os.environ.get("VERIF_INCOQ_ALWAYS")) or replay or common.is_scaled() or common.CFG_OVERRIDE:
         return 0
     smp = [r for r in records if r.get("model_line") and "=" in r["model_line"]]
     smp.sort(key=lambda r: len(r["case_line"]))
